@@ -30,19 +30,13 @@ KINDS = [
     ("Undefined variable", "UndefinedVariable"),
 ]
 
-F17 = "C12-later-dotted-scope-visible"
-# a known_findings.json entry is recognised by its id or by its "signature" field.
-# (The former finding "disabled objects supply variables" was repaired in /repo af676a9: its
-# witness is a must-pass corpus case and the oracle treats disabled objects as invisible.)
-SIGNATURES = {F17: "later-dotted-scope"}
-
-
-def finding_key(finding):
-    """-> F17 | None : whether a registered finding names this check's open defect signature"""
-    for k, sig in SIGNATURES.items():
-        if finding.get("id") == k or finding.get("signature") == sig:
-            return k
-    return None
+# No open finding.  Two former findings are repaired and their witnesses are must-pass corpus cases:
+#   "disabled objects supply variables"            repaired in /repo af676a9 (the oracle treats
+#                                                  disabled objects as invisible);
+#   C12-later-dotted-scope-visible                 repaired in /repo 2398dd1: the implicit prefix scopes
+#     of a dotted name now carry the primary id of the object they lead to, so the prefix scope of a
+#     LATER dotted definition is cut off by lexical_get like every other later object (the oracle
+#     reads the property text without exception: a wrapper of a later definition is later).
 
 
 def err_obs(e):
@@ -374,7 +368,6 @@ class Documents(Stream):
     def __init__(self, ctx):
         super().__init__(ctx)
         self.fp = import_freephil()
-        self.known = {finding_key(f) for f in vlib.load_findings("C12") if f.get("status") == "open"} - {None}
 
     # -- cases
     def corpus(self):
@@ -385,9 +378,21 @@ class Documents(Stream):
             {"doc": [["d", "y", 1, [["1", "n"]]], d("z", ("$y", "n"))], "env": [["y", "E"]]},
             {"doc": [d("y", ("0", "n")), ["s", "s", 1, [d("y", ("1", "n"))]], ["d", "y", 1, [["2", "n"]]],
                      d("z", ("$y", "n"), ("$(s.y)", "n"))], "env": []},
-            # later dotted definition turns an environment variable into an error
+            # former witness of C12-later-dotted-scope-visible (repaired in /repo 2398dd1): a LATER dotted
+            # definition must not turn an earlier reference into 'Not a definition'; these must PASS
             {"doc": [["s", "t", 0, [d("a", ("$VERIFX", "n"))]], d("VERIFX.b", ("1", "n"))], "env": [["VERIFX", "E"]]},
+            {"doc": [["s", "t", 0, [d("a", ("$VERIFX", "n"))]], d("VERIFX.b", ("1", "n"))], "env": []},
             {"doc": [["s", "t", 0, [d("a", ("$VERIFX", "n"))]]], "env": [["VERIFX", "E"]]},
+            # ... also inside the enclosing scope, behind a later dotted SCOPE, with a deeper dotted name,
+            # and for a definition that refers to its own prefix (s.a = $s sees only an EARLIER s)
+            {"doc": [["s", "t", 0, [d("a", ("$VERIFX", "n")), d("VERIFX.b", ("1", "n"))]]], "env": [["VERIFX", "E"]]},
+            {"doc": [["s", "t", 0, [d("a", ("$VERIFX", "n"))]], ["s", "VERIFX.b", 0, [d("c", ("1", "n"))]]], "env": []},
+            {"doc": [d("a", ("$(VERIFX.b)", "n"), ("$VERIFX", "n")), d("VERIFX.b.c", ("1", "n"))], "env": [["VERIFX", "E"], ["VERIFX.b", "F"]]},
+            {"doc": [d("s.a", ("$s", "n"))], "env": [["s", "E"]]},
+            {"doc": [d("s.a", ("$s", "n"))], "env": []},
+            {"doc": [d("s.a", ("1", "n")), d("s.a", ("$(s.a)", "n"), ("$s", "n"))], "env": []},
+            # an EARLIER dotted definition is still found through its prefix scope
+            {"doc": [d("VERIFX.b", ("1", "n")), ["s", "t", 0, [d("a", ("$(VERIFX.b)", "n")), d("c", ("$VERIFX", "n"))]]], "env": [["VERIFX", "E"]]},
             {"doc": [d("a", ("1", "n")), d("a", ("$a", "n")), d("a", ("$a", "n"), ("2", "n"))], "env": []},
             {"doc": [d("a", ("$a", "n"))], "env": [["a", "E"]]},
             {"doc": [d("a", ("$a", "n"))], "env": []},
@@ -500,29 +505,18 @@ class Documents(Stream):
         if not sp.matches_tree(o[1]):
             return None  # the document did not parse into the structure the case describes (not this property)
         for node, d in zip(sp.defs, o[2]):
-            want = sp.resolve(node, shells=False)
+            want = sp.resolve(node)
             if want is None:
                 continue  # touches a malformed reference: the property text does not say
             got = d[2]
             if got == want:
                 continue
-            shell = sp.resolve(node, shells=True)
-            if shell == got:
-                return "%s: definition %s (line %d) gives %r because of a dotted definition later in the file; the property text gives %r" % (
-                    F17, node.path(), node.line, got, want)
-            if shell is None:
-                continue  # the later object that the code consults is malformed: the text does not say
             return "definition %s (line %d): implementation %r, property text %r" % (node.path(), node.line, got, want)
         return None
 
     def in_domain(self, case):
-        # The open defect C12-later-dotted-scope-visible (an id-less prefix scope of a LATER dotted
-        # definition is visible) is evaluated only while it is registered as an open finding (then
-        # run_check matches it); otherwise the affected cases are outside the domain.
-        if F17 in self.known:
-            return True
-        sp = Spec(case)
-        return all(sp.resolve(node, shells=True) == sp.resolve(node, shells=False) for node in sp.defs)
+        # every case: dotted names are covered without exception since /repo 2398dd1
+        return True
 
     def key(self, case, o):
         if o[0] != "parsed":
@@ -699,15 +693,11 @@ class Spec:
         return [conv(k) for k in self.root.kids] == [conv_t(t) for t in tree]
 
     # -- lookup: all objects named by [comps] below scope [sc] that sit before position p
-    def _matches(self, sc, comps, p, shells):
+    def _matches(self, sc, comps, p):
         out = []
         for k in sc.kids:
-            if not k.shell and k.pos >= p:
-                if shells:
-                    break      # the scan ends at the first later object that carries an id
-                continue
-            if k.shell and not shells and k.pos >= p:
-                continue       # property text: a wrapper of a later definition is later
+            if k.pos >= p:
+                continue       # later in the document; a wrapper of a later definition is later, too
             if k.disabled:
                 continue       # a disabled object (and everything inside a disabled scope) is commented out
             if k.name != comps[0]:
@@ -715,10 +705,10 @@ class Spec:
             if len(comps) == 1:
                 out.append(k)
             elif k.kind == "s":
-                out.extend(self._matches(k, comps[1:], p, shells))
+                out.extend(self._matches(k, comps[1:], p))
         return out
 
-    def lookup(self, name, node, shells):
+    def lookup(self, name, node):
         anchored = name.startswith(".")
         comps = (name[1:] if anchored else name).split(".")
         sc = node.parent
@@ -729,7 +719,7 @@ class Spec:
         if anchored:
             chain = chain[-1:]
         for sc in chain:
-            m = self._matches(sc, comps, node.pos, shells)
+            m = self._matches(sc, comps, node.pos)
             if m:
                 # nearest = latest in document order; among wrappers of one definition the outermost match
                 best = max(m, key=lambda k: k.pos)
@@ -757,7 +747,7 @@ class Spec:
             i = m.end()
         return out
 
-    def resolve(self, node, shells, depth=0):
+    def resolve(self, node, depth=0):
         """-> ["ok", words] | ["err", "RuntimeError", kind, line] | None (text does not say)"""
         if depth > 200:
             return ["nontermination"]
@@ -780,11 +770,11 @@ class Spec:
                     continue
                 if val.startswith(".") and val in self.env:
                     return None
-                src = self.lookup(val, node, shells)
+                src = self.lookup(val, node)
                 if src is not None:
                     if src.kind != "d":
                         return ["err", "RuntimeError", "NotADefinition", str(line)]
-                    r = self.resolve(src, shells, depth + 1)
+                    r = self.resolve(src, depth + 1)
                     if r is None or r[0] != "ok":
                         return r
                     ws = r[1]
@@ -799,11 +789,6 @@ class Spec:
             if not sole:
                 new.append([text, "2", "0"])
         return ["ok", new]
-
-
-def match_finding(finding, failure):
-    k = finding_key(finding)
-    return k is not None and failure.get("what", "").startswith(k + ":")
 
 
 SPEC = {
@@ -821,8 +806,8 @@ SPEC = {
                 "for the names the document can look up and restores it). The parse tree (with primary ids) is taken from "
                 "freephil.parse and handed to the model; the model checks doc_ordered on it in every case."],
     "modelled": "hand-written model coq/theories/Model/Vars.v; the tmp marks set on substitution sources are not modelled; "
-                "freephil.parse is input, not modelled here (doc_ordered is checked per case, not proved of the parser)",
+                "freephil.parse is input to this check, not modelled here (doc_ordered is checked per case on the implementation's "
+                "tree; for the parser MODEL it is proved: C12_parsed_documents_are_ordered)",
     "assumptions": ["text restricted to code points < 256", "parsed documents are doc_ordered (checked by the model on every case)",
                     "no .alias paths in scope.get"],
-    "match_finding": match_finding,
 }
